@@ -416,6 +416,8 @@ pub struct Iteration {
     pub double_backward: bool,
     /// a forward call on another batch whose result is abandoned, made right before this iteration's own forward
     pub abandoned_forward: Option<T<f64>>,
+    /// a forward call on another batch (say, a validation batch) made between this iteration's backward and update
+    pub late_forward: Option<T<f64>>,
     /// before this iteration the model object is dropped, the layers are edited through Layer::parameters() and a new
     /// Model is built over the same layers
     pub rebuild: Option<Rebuild>,
@@ -429,7 +431,7 @@ pub struct Rebuild {
 }
 impl Iteration {
     pub fn plain(input: T<f64>, target: T<f64>, double_backward: bool) -> Iteration {
-        Iteration { input, target, double_backward, abandoned_forward: None, rebuild: None }
+        Iteration { input, target, double_backward, abandoned_forward: None, late_forward: None, rebuild: None }
     }
 }
 
@@ -508,6 +510,11 @@ pub fn train_spied(spec: &NetSpec, params: &[T<f64>], iterations: &[Iteration], 
                     let _ = model.backward(arr_t(&it.target));
                 }
                 losses.push(loss as f64);
+                if let Some(x) = &it.late_forward {
+                    let n0 = events.borrow().len();
+                    let _ = model.forward(arr_t(x));
+                    events.borrow_mut().truncate(n0);
+                }
                 model.update();
                 i += 1;
                 if i >= iterations.len() || iterations[i].rebuild.is_some() {
